@@ -5,6 +5,7 @@ import (
 	"go/ast"
 	"go/token"
 	"go/types"
+	"slices"
 	"strings"
 
 	"golang.org/x/tools/go/cfg"
@@ -56,7 +57,22 @@ func checkC20(p *Prog, r *Report) {
 		}
 		return fi
 	}
-	rOf := func(fi *FuncInfo) *Term { return tVar(p.recvVar(fi)) }
+	// the growing routine, by role: the one function besides the constructor that replaces the element array
+	growFn := func() *FuncInfo {
+		var found []*FuncInfo
+		for _, st := range p.FieldStores(fElems) {
+			fn := rootFuncInfo(st.Fn)
+			if fn.Obj == nil || fn.Obj == p.Func("NewRingBuffer") || slices.Contains(found, fn) {
+				continue
+			}
+			found = append(found, fn)
+		}
+		if len(found) != 1 {
+			brokenCheck("ANCHOR-UNRESOLVED role=the function that replaces RingBuffer.elements (found %d)", len(found))
+		}
+		return found[0]
+	}
+	rOf := func(fi *FuncInfo) *Term { return tVar(p.selfVar(fi)) }
 	head := func(fi *FuncInfo) *Term { return tFld(rOf(fi), fHead) }
 	tail := func(fi *FuncInfo) *Term { return tFld(rOf(fi), fTail) }
 	elems := func(fi *FuncInfo) *Term { return tFld(rOf(fi), fElems) }
@@ -291,6 +307,41 @@ func checkC20(p *Prog, r *Report) {
 				r.bad(spec.rule, fi.Name, pos, construct, fmt.Sprintf("visits %v, the queue order requires %v", got[arm], want[arm]), "")
 			}
 		}
+		// an empty ring (head == tail) must not be traversed: with the strict layout test head < tail it falls into
+		// the wrapped arm, which covers the whole array — so either an emptiness guard returns first, or the
+		// contiguous arm is selected by head <= tail
+		{
+			c := p.CFG(fi)
+			strict, guarded := false, false
+			for _, b := range c.live {
+				ct := c.CondTerm(b)
+				if ct == nil || len(b.Succs) != 2 {
+					continue
+				}
+				e := p.ExpandHelpers(ct)
+				if e.Op == "<" && e.Args[0].Key() == head(fi).Key() && e.Args[1].Key() == tail(fi).Key() {
+					strict = true
+				}
+				// Len() == 0 / IsEmpty() / head == tail with a returning true edge
+				isEmpty := false
+				switch {
+				case e.Op == "==" && ((e.Args[0].Key() == head(fi).Key() && e.Args[1].Key() == tail(fi).Key()) || (e.Args[1].Key() == head(fi).Key() && e.Args[0].Key() == tail(fi).Key())):
+					isEmpty = true
+				case ct.Op == "==" && len(ct.Args) == 2 && ((ct.Args[0].IsConst() && ct.Args[0].Int == 0 && ct.Args[1].Op == "call" && ct.Args[1].Obj == p.Method("RingBuffer", "Len")) || (ct.Args[1].IsConst() && ct.Args[1].Int == 0 && ct.Args[0].Op == "call" && ct.Args[0].Obj == p.Method("RingBuffer", "Len"))):
+					isEmpty = true
+				case ct.Op == "call" && ct.Obj == p.Method("RingBuffer", "IsEmpty"):
+					isEmpty = true
+				}
+				if isEmpty && c.BlockDominates(c.Entry(), b) {
+					for _, nd := range b.Succs[0].Nodes {
+						if _, isRet := nd.(*ast.ReturnStmt); isRet {
+							guarded = true
+						}
+					}
+				}
+			}
+			r.check(!strict || guarded, spec.rule, fi.Name, p.Pos(fi.Node), spec.name+" on an empty ring", "emptiness guard (or layout test head <= tail)", "with head == tail the strict layout test head < tail is false, so an empty ring is traversed as 'wrapped': every slot of the array is visited although the queue holds nothing")
+		}
 		// the loop body touches elements[i]
 		if spec.name == "Clear" {
 			okBody := true
@@ -327,7 +378,7 @@ func checkC20(p *Prog, r *Report) {
 	}
 	// grow
 	{
-		fi := method("grow")
+		fi := growFn()
 		fa := p.FactsOf(fi)
 		c := p.CFG(fi)
 		type cp struct {
@@ -436,7 +487,7 @@ func checkC20(p *Prog, r *Report) {
 		fi := method("Push")
 		c := p.CFG(fi)
 		isFull := p.Method("RingBuffer", "IsFull")
-		grow := p.Method("RingBuffer", "grow")
+		grow := growFn().Obj
 		n := 0
 		inspectBody(fi, func(x ast.Node) bool {
 			as, ok := x.(*ast.AssignStmt)
@@ -526,6 +577,31 @@ func checkC20(p *Prog, r *Report) {
 			}
 			return true
 		})
+		if okLen != 2 {
+			// the same two cases written differently (a difference corrected when negative, swapped arms, …):
+			// every path returns tail - head under head <= tail or len - head + tail under tail < head, and both occur
+			if sps, understood := p.SymPaths(fL); understood {
+				c1, c2, bad := 0, 0, 0
+				for _, sp := range sps {
+					if len(sp.Ret) != 1 {
+						bad++
+						continue
+					}
+					l := Lin(sp.Ret[0])
+					switch {
+					case l.Equal(Lin(sub(tail(fL), head(fL)))) && pathImplies(sp.Conds, le(head(fL), tail(fL))):
+						c1++
+					case l.Equal(Lin(add(sub(lenE(fL), head(fL)), tail(fL)))) && pathImplies(sp.Conds, lt(tail(fL), head(fL))):
+						c2++
+					default:
+						bad++
+					}
+				}
+				if c1 > 0 && c2 > 0 && bad == 0 {
+					okLen = 2
+				}
+			}
+		}
 		r.check(okLen == 2, "C20.Q2", fL.Name, p.Pos(fL.Node), "Len covers both layouts", "tail - head under head <= tail; len - head + tail otherwise", "Len does not compute the occupancy of both layouts")
 	}
 
@@ -585,7 +661,7 @@ func checkC20(p *Prog, r *Report) {
 						}
 					}
 				}
-			case st.Fn.Name == "(*RingBuffer).grow":
+			case st.Fn == growFn():
 				if rt.Op == "call" && rt.Obj == p.Method("RingBuffer", "Len") {
 					okS, why = true, "Len() in grow"
 				} else if t.Op == "var" {
@@ -602,6 +678,36 @@ func checkC20(p *Prog, r *Report) {
 	}
 
 	// ---------------------------------------------------------------- Q5
+	// part of the ring: its methods, its constructor, and plain functions called by those alone (a method body
+	// moved into an unexported function that takes the ring) — fixpoint over the resolved call sites
+	inside := map[*FuncInfo]bool{}
+	for _, fi := range p.funcs {
+		if fi.Lit == nil && fi.Obj != nil && (recvTypeName(fi.Obj) == "RingBuffer" || fi.Name == "NewRingBuffer") {
+			inside[fi] = true
+		}
+	}
+	for changed := true; changed; {
+		changed = false
+		for _, fi := range p.funcs {
+			if fi.Lit != nil || fi.Obj == nil || inside[fi] || fi.Obj.Exported() || p.selfVar(fi) == nil {
+				continue
+			}
+			if n, ok := derefNamed(p.selfVar(fi).Type()); !ok || n.Obj().Name() != "RingBuffer" {
+				continue
+			}
+			sites := p.CallsTo(fi.Obj)
+			all := len(sites) > 0 && !p.usedAsValue(fi.Obj)
+			for _, s := range sites {
+				if !inside[rootFuncInfo(s.Fn)] {
+					all = false
+				}
+			}
+			if all {
+				inside[fi] = true
+				changed = true
+			}
+		}
+	}
 	for _, f := range []*types.Var{fHead, fTail, fElems} {
 		var outside []string
 		for _, fi := range p.funcs {
@@ -613,7 +719,7 @@ func checkC20(p *Prog, r *Report) {
 				continue
 			}
 			root := rootFuncInfo(fi)
-			if root.Obj != nil && (recvTypeName(root.Obj) == "RingBuffer" || root.Name == "NewRingBuffer") {
+			if inside[root] {
 				continue
 			}
 			outside = append(outside, root.Name)
